@@ -20,6 +20,9 @@ import (
 
 func TestMain(m *testing.M) { rec.Main(m, "C12") }
 
+// ruleMore describes what was added to the exploration in the build phase.
+const ruleMore = "; when every alternative of every rule handle is, up to the order of alternatives, an alternative of a rule with that name, the grammar must have as many productions and non-terminals as the specification without its directives"
+
 const rule = "specifications with 0-6 directives interleaved with token and rule declarations (before, between and after the rules they mention); handles: string literals, named tokens, rule handles without operators, " +
 	"with alternation (several productions), with extended operators, with duplicated alternatives, with terminals in the body; oracle: Spec.Precedences has one level per directive in source order with the written associativity; " +
 	"its terminal handles are exactly the listed terminals; the production handles with head h are members of Grammar.Productions and denote exactly the top-level alternatives of the rule handles written for h " +
@@ -316,7 +319,7 @@ func shuffled(t *rapid.T, r *ref.RHS) *ref.RHS {
 }
 
 func TestPrecedenceLevels(t *testing.T) {
-	rec.Rule(rule)
+	rec.Rule(rule + ruleMore)
 	opts := gen.SpecOpts{MaxRules: 3, Depth: 3, Literals: []string{"a", "b", "+", "-", "*"}, Tokens: []string{"TK", "NUM", "ID"}, Directives: 6, RuleHandles: true, DupRules: true, EmptyRules: true}
 	rec.Check(t, 3000, 120000, func(t *rapid.T) {
 		m := gen.Spec(t, opts)
